@@ -358,7 +358,7 @@ C.STRUCT_STORE["PsiCache"] = lambda ip, obj, idx, v: None
 @register
 class Precursor(Contract):
     key = ISR + ".precursor"
-    props = ["C04", "C03"]
+    props = ["C04", "C03", "C05"]
     note = "n-th order precursor state"
     loops = {0: _PsiCacheLoop(), 1: _GsOuter(), 2: _GsInner(), 4: _LowOuter(), 5: _LowInner()}
     CASES = [("pp", "ph", "ia"), ("pp", "pphh", "ijab"), ("ip", "h", "i"), ("ip", "phh", "ija"),
